@@ -216,3 +216,63 @@ func verifC09Concurrent(scen int) {
 	vrt.Assert(c.Size() == hot+snap, "Size() equals the bytes of the values and keys actually held")
 	vrt.Reach("end")
 }
+
+// VerifC09_ConcReadDuringSnapshot: a point p0 is in the hot store; then a writer (p1, same key), a
+// snapshotter (Snapshot under the engine lock, and ClearSnapshot(false) — the snapshot is retained) and a
+// reader (Values of the key) run concurrently. The reader always sees p0 (it is in the hot store or in the
+// snapshot at every instant), sees p1 if the write completed before the read began and not if it began
+// after the read ended, and what it returns is sorted without duplicates.
+func VerifC09_ConcReadDuringSnapshot() {
+	c := verifNewCache(0)
+	var emu sync.RWMutex
+	t0, v0, t1, v1 := vrt.Int64("t0"), vrt.Int64("v0"), vrt.Int64("t1"), vrt.Int64("v1")
+	vrt.Assume(t0 != t1)
+	vrt.Assert(c.WriteMulti(map[string][]Value{"k": {NewIntegerValue(t0, v0)}}) == nil, "first write")
+	clock := 0
+	tick := func() int { clock++; return clock }
+	var wStart, wEnd, rStart, rEnd int
+	var got Values
+	vrt.Go(func() {
+		wStart = tick()
+		emu.RLock()
+		err := c.WriteMulti(map[string][]Value{"k": {NewIntegerValue(t1, v1)}})
+		emu.RUnlock()
+		vrt.Assert(err == nil, "a write below the limit is accepted")
+		wEnd = tick()
+	})
+	vrt.Go(func() {
+		emu.Lock()
+		_, err := c.Snapshot()
+		emu.Unlock()
+		vrt.Assert(err == nil, "Snapshot succeeds")
+		c.ClearSnapshot(false)
+	})
+	vrt.Go(func() {
+		rStart = tick()
+		got = c.Values([]byte("k"))
+		rEnd = tick()
+	})
+	vrt.Join()
+	check := func(vals Values, label string, mustP1, mustNotP1 bool) {
+		for i := 1; i < len(vals); i++ {
+			vrt.Assert(vals[i-1].UnixNano() < vals[i].UnixNano(), label+": sorted by time without duplicates")
+		}
+		for i := range vals {
+			vrt.Assert(vrt.Or(vrt.And(vals[i].UnixNano() == t0, vals[i].Value().(int64) == v0), vrt.And(vals[i].UnixNano() == t1, vals[i].Value().(int64) == v1)), label+": every value returned was written")
+		}
+		vrt.Assert(verifHas(vals, t0, v0), label+": a point that was neither deleted nor flushed is readable at every instant")
+		if mustP1 {
+			vrt.Assert(verifHas(vals, t1, v1), label+": a write that completed before the read is visible")
+		}
+		if mustNotP1 {
+			vrt.Assert(!verifHas(vals, t1, v1), label+": a write that began after the read is not visible")
+		}
+	}
+	check(got, "concurrent read", wEnd != 0 && wEnd < rStart, wStart > rEnd)
+	check(c.Values([]byte("k")), "final read", true, false)
+	c.mu.RLock()
+	hot, snap := verifHeldBytes(c.store), verifHeldBytes(c.snapshot.store)
+	c.mu.RUnlock()
+	vrt.Assert(c.Size() == hot+snap, "Size() equals the bytes of the values and keys actually held")
+	vrt.Reach("end")
+}
